@@ -443,7 +443,26 @@ func runTUnary(m *model.Model, s *ob.Set) {
 	}
 
 	// ---- MantExp / SetMantExp
+	minExp, _ := constant.Int64Val(m.PkgConst("MinExp"))
+	maxExp, _ := constant.Int64Val(m.PkgConst("MaxExp"))
 	for c := 0; c < 6; c++ {
+		// the exponent limits: MantExp hands back the exponent itself there too
+		for _, ex := range []int64{minExp, maxExp} {
+			if e.formOf(c) != e.finite {
+				continue
+			}
+			fn := m.Lookup("(*Decimal).MantExp")
+			it := stdInterp(m)
+			st := cdai.NewState()
+			x := mkDec(m, st, decSpec{form: i64(e.formOf(c)), neg: bptr(negOf(c)), prec: i64(7), mode: i64(xMode), acc: i64(e.above), exp: i64(ex)})
+			exx := ex
+			cell(m, s, R, fmt.Sprintf("MantExp(%s) exp=%d mant=nil", classNames[c], ex), fn, it, st, []cdai.Val{x, cdai.Const{}}, cdai.Obj{}, func(o cdai.Outcome) string {
+				if g, ok := retInt(o, 0); !ok || g != exx {
+					return fmt.Sprintf("returned exponent must be %d (x = mant × 10**exp exactly, at the limits of the exponent range as anywhere else)", exx)
+				}
+				return ""
+			})
+		}
 		for _, withMant := range []int{0, 1, 2} { // nil, distinct, same as x
 			fn := m.Lookup("(*Decimal).MantExp")
 			it := stdInterp(m)
